@@ -182,6 +182,10 @@ def leaf_markers(prog, names):
         raise KeyError("anchor: ZXTape::current_bit not unique: %s" % cb)
     f["ear"] = cb[0]
     bp = [p for p in prog.fns if p.startswith("rustzx_core::") and p.endswith("::change_state")]
+    if len(bp) == 0:
+        # a build without the sound feature has no beeper: the speaker / MIC bits go nowhere
+        f["beeper"] = None
+        return f
     if len(bp) != 1:
         raise KeyError("anchor: beeper change_state not unique: %s" % bp)
     f["beeper"] = bp[0]
